@@ -10,7 +10,7 @@ import shutil
 
 ID = "C19"
 LEVEL = "other"
-CONTRACT_MODULES = ["contracts.responses", "contracts.cycle", "contracts.allof"]
+CONTRACT_MODULES = ["contracts.responses", "contracts.cycle", "contracts.allof", "contracts.opsparse"]
 EXPLANATION = ("No contract states 'two runs agree' for the whole loader; the property is decided through order-independent postconditions of the "
                "functions that could depend on entry order: both primary-response selectors are proved to pick the best-priority response "
                "whatever the order of the `responses` entries; the allOf merge is proved per member independent of member order. The rendering "
